@@ -50,6 +50,13 @@ def generate(rng, tier):
             srv(s.A32, flip(s.M1, i), "M1-bit-flip")
         for i in range(256):
             srv(flip(s.A32, i), s.M1, "A-bit-flip")
+        for m in two_place_flips(rng, s.M1):
+            srv(s.A32, m, "M1-two-place-change")
+        for m in two_place_flips(rng, s.A32, 6):
+            srv(m, s.M1, "A-two-place-change")
+        # a public key that is congruent to A modulo N but has different bytes (A + N fits in 32 bytes for A < 2^256 - N)
+        if s.A + N < (1 << 256):
+            srv((s.A + N).to_bytes(32, "little"), s.M1, "A-plus-N-same-residue")
         # B altered in transit: the client computes with B'
         for i in range(0, 256, 1 if tier == "thorough" else 4):
             Bp = flip(s.B32, i)
@@ -81,6 +88,8 @@ def generate(rng, tier):
         for i in range(160):
             m2p = flip(s.M2, i)
             cs.append(Case("cli.verify %s %s | %s" % (base, m2p.hex(), a.hex()), "M2-bit-flip", "err %s %s ~32" % (s.M2.hex(), m2p.hex())))
+        for m2p in two_place_flips(rng, s.M2):
+            cs.append(Case("cli.verify %s %s | %s" % (base, m2p.hex(), a.hex()), "M2-two-place-change", "err %s %s ~32" % (s.M2.hex(), m2p.hex())))
     return cs
 
 def nontrivial(case, out):
